@@ -142,7 +142,7 @@ CHECKS = {
                 'whole case table. RealNet: a REAL proxy process with the interception flags and a test CA, real TLS origins presenting '
                 'a trusted / self-signed / wrong-name / expired certificate, a client that CONNECTs to a host name and to an IPv4 '
                 'literal, completes TLS, has the presented certificate judged by the openssl CLI (chains to the interception CA, names '
-                'the CONNECT host, is the origin's own), then sends a request inside TLS; every case cold and warm. TLC (TraceTls) '
+                'the CONNECT host, is the origin own certificate), then sends a request inside TLS; every case cold and warm. TLC (TraceTls) '
                 'decides per case: refused => no application data in either direction; intercepted => valid per-host leaf, request '
                 'semantically intact at the origin, response intact; opted-out => opaque tunnel byte for byte.',
         'design_ref': 'DESIGN.md section 6, C11',
